@@ -87,6 +87,7 @@ type genState struct {
 	nftAddr  string
 	jailed   map[int]bool
 	offender   int
+	split      bool          // directed history: two camps of equal power reveal different owners
 	clean      bool          // directed history: the oracle traffic carries no noise
 	leaver     int           // directed: answers like the majority, takes its whole stake back between its reveal and the tally
 	revealedAt map[int]int64 // height of a validator's latest reveal
@@ -195,6 +196,19 @@ func GenHistory(seed uint64, idx int, p Profile) History {
 		g.offender = r.Intn(nv)
 		gen.MaxMiss = 1
 		gen.Window = gen.VotePeriod * 6
+	}
+	if p.Replica && g.offender < 0 && r.Chance(30) {
+		// directed: the validators split into two camps of EQUAL power that reveal different owners, at a threshold of one
+		// half - both owners reach it. Whatever decides between them must not depend on the order of a Go map.
+		g.split = true
+		g.clean = true
+		gen.Threshold = "0.5"
+		for i := range gen.Powers {
+			gen.Powers[i] = 3
+		}
+		if nv%2 == 1 {
+			gen.Powers[nv-1] = 6 // an odd validator out: it balances two of the others
+		}
 	}
 	g.leaver = -1
 	g.revealedAt = map[int]int64{}
@@ -709,7 +723,18 @@ func (g *genState) oracleMsgs() []Event {
 					continue
 				}
 				owner := ownerPool[0]
-				if (noise(g.p.Wrongness) && v != g.leaver) || v == g.offender {
+				if g.split {
+					// camp A: the validators that make up half of the power (the first ones; with an odd count the last one
+					// carries double power and belongs to camp B together with one of the others)
+					half := g.nVals / 2
+					campB := v >= half
+					if g.nVals%2 == 1 {
+						campB = v == g.nVals-1 || v < (g.nVals-3)/2
+					}
+					if campB {
+						owner = ownerPool[1]
+					}
+				} else if (noise(g.p.Wrongness) && v != g.leaver) || v == g.offender {
 					owner = ownerPool[1+r.Intn(len(ownerPool)-1)]
 					if v != g.offender && r.Chance(20) {
 						owner = ownerPool[0]
